@@ -420,7 +420,7 @@ macro_rules! zip_plain {
 }
 
 // exactly ONE operand type has drop glue: both owned operands must still be guarded (needs_drop::<T>() || needs_drop::<B>())
-// @gen macro=zip_mixed name=c08_zip_mixed props=C03,C04,C08 quick=dp,U3,3;pd,U3,3 thorough=dp,U1,1;pd,U1,1;dp,U5,5;pd,U5,5
+// @gen macro=zip_mixed name=c08_zip_mixed props=C03,C04,C08 quick=dp,U3,3;pd,U3,3;rpd,U3,3;mpd,U3,3;odr,U3,3 thorough=dp,U1,1;pd,U1,1;dp,U5,5;pd,U5,5;rpd,U1,1;rpd,U5,5;mpd,U5,5;odr,U5,5
 macro_rules! zip_mixed {
     ($name:ident, dp, $N:ty, $n:expr) => {
         #[kani::proof]
@@ -441,6 +441,54 @@ macro_rules! zip_mixed {
                 y
             });
             kani::assert(calls == $n && all_dead(0, $n) && unsafe { DROPS } == $n, "C03.zip(droppable, plain): every droppable element consumed exactly once");
+            kani::cover!(true, "end reachable");
+        }
+    };
+    // a BORROWED plain operand zipped with an OWNED droppable one (GenericArray::inverted_zip2: only the owned side's drop glue decides)
+    ($name:ident, rpd, $N:ty, $n:expr) => { zip_mixed!(@refpd $name, $N, $n, [&]); };
+    ($name:ident, mpd, $N:ty, $n:expr) => { zip_mixed!(@refpd $name, $N, $n, [&mut]); };
+    (@refpd $name:ident, $N:ty, $n:expr, [$($r:tt)+]) => {
+        #[kani::proof]
+        #[kani::unwind(12)]
+        fn $name() {
+            let sa: [u32; $n] = kani::any();
+            let mut a: GenericArray<u32, $N> = GenericArray::from_array(sa);
+            let b: GenericArray<D, $N> = arr_d::<$N, $n>(0);
+            reset_monitor();
+            let mut calls = 0usize;
+            let out: GenericArray<u32, $N> = ($($r)+ a).zip(b, |x, y: D| {
+                kani::assert(y.0 == calls && *x == sa[calls], "C08.zip(&plain, droppable): k-th call receives (a[k], b[k]), ascending");
+                kani::assert(n_consumers() >= 1 && consumer_pos(0) == calls + 1,
+                    "C04.zip(&plain, droppable) unwind@closure: the owned droppable operand is guarded by a consumer whose position excludes exactly the elements handed out");
+                kani::assert(all_live(calls, $n), "C04.zip(&plain, droppable): unconsumed droppable inputs are live at the call");
+                calls += 1;
+                drop(y);
+                *x
+            });
+            kani::assert(calls == $n && all_dead(0, $n) && unsafe { DROPS } == $n, "C03.zip(&plain, droppable): every droppable element consumed exactly once");
+            kani::cover!(true, "end reachable");
+        }
+    };
+    // an OWNED droppable operand zipped with a BORROWED plain one (trait default inverted_zip)
+    ($name:ident, odr, $N:ty, $n:expr) => {
+        #[kani::proof]
+        #[kani::unwind(12)]
+        fn $name() {
+            let a: GenericArray<D, $N> = arr_d::<$N, $n>(0);
+            let sb: [u32; $n] = kani::any();
+            let b: GenericArray<u32, $N> = GenericArray::from_array(sb);
+            reset_monitor();
+            let mut calls = 0usize;
+            let out: GenericArray<u32, $N> = a.zip(&b, |x: D, y: &u32| {
+                kani::assert(x.0 == calls && *y == sb[calls], "C08.zip(droppable, &plain): k-th call receives (a[k], b[k]), ascending");
+                kani::assert(n_consumers() >= 1 && consumer_pos(0) == calls + 1,
+                    "C04.zip(droppable, &plain) unwind@closure: the owned droppable operand is guarded by a consumer whose position excludes exactly the elements handed out");
+                kani::assert(all_live(calls, $n), "C04.zip(droppable, &plain): unconsumed droppable inputs are live at the call");
+                calls += 1;
+                drop(x);
+                *y
+            });
+            kani::assert(calls == $n && all_dead(0, $n) && unsafe { DROPS } == $n, "C03.zip(droppable, &plain): every droppable element consumed exactly once");
             kani::cover!(true, "end reachable");
         }
     };
